@@ -45,6 +45,8 @@ def wild_time():
         st.floats(1e-17, 1e-4, allow_nan=False, allow_subnormal=False),
         st.floats(1e6, 1e15, allow_nan=False, allow_infinity=False),
         st.integers(0, 10**15).map(float),
+        # large integral times only a few units apart (exactly representable, written exactly)
+        st.builds(lambda b, k: float(b + k), st.sampled_from([10**12, 9 * 10**14, 10**15 - 100]), st.integers(0, 50)),
         dec_time(),
         grid_time(),
     )
@@ -279,7 +281,8 @@ def io_safe_boundaries(xs):
     as that integer), so that allowed rounding can never collapse an interval."""
     out = []
     for x in sorted(set(xs)):
-        if not out or x - out[-1] > 4e-14 * max(x, 1.0) + 1e-300:
+        both_integral = bool(out) and float(x).is_integer() and float(out[-1]).is_integer()  # written exactly by %d
+        if not out or both_integral or x - out[-1] > 4e-14 * max(x, 1.0) + 1e-300:
             out.append(x)
     return out
 
@@ -327,6 +330,8 @@ def io_textgrid(draw, rich=True, tokens=True, max_tiers=4, clean=True, styles=("
     lab = labels(tokens) if rich else SMALL_LABELS
     nm = names(tokens) if rich else st.sampled_from(["a", "b", "c", "d", "e"])
     n = draw(st.integers(1, max_tiers))
+    if draw(st.integers(0, 24)) == 0:
+        n = draw(st.integers(10, 12))  # two-digit tier indices (item [10]:)
     tiers, used = [], set()
     pool = None
     if style == "wild":
@@ -343,7 +348,7 @@ def io_textgrid(draw, rich=True, tokens=True, max_tiers=4, clean=True, styles=("
                 name = f"{base}_{k}"
                 k += 1
         used.add(name)
-        tiers.append(draw(io_tier(style, name, lab, explicit_empty=explicit_empty, pool=pool)))
+        tiers.append(draw(io_tier(style, name, lab, explicit_empty=explicit_empty, pool=pool, max_segments=5 if n < 10 else 2)))
     lo = 0.0 if draw(st.integers(0, 3)) > 0 else min(t["minT"] for t in tiers)
     if pool is not None and 0 < min(t["minT"] for t in tiers) <= 4e-14:
         lo = min(t["minT"] for t in tiers)
@@ -364,3 +369,23 @@ def io_textgrid(draw, rich=True, tokens=True, max_tiers=4, clean=True, styles=("
                 t["maxT"] = t["minT"] + 1.0
         hi = max([hi] + [t["maxT"] for t in tiers])
     return {"tiers": tiers, "minT": lo, "maxT": hi, "style": style}
+
+
+def near_values(x: float):
+    """Floats that are not equal to x but closer than the library's fuzzy comparisons (1e-14 and 1e-9 relative)."""
+    out = []
+    for k in (1, 3):
+        up, dn = x, x
+        for _ in range(k):
+            up, dn = math.nextafter(up, math.inf), math.nextafter(dn, -math.inf)
+        out += [up, dn]
+    out += [x * (1 + 2.0 ** -36), x * (1 - 2.0 ** -36)]
+    return [v for v in out if v >= 0 and v != x]
+
+
+def min_gap(spec) -> float:
+    """Smallest positive distance between any two boundaries (entries and spans) of a textgrid spec."""
+    xs = sorted({spec["minT"], spec["maxT"]} | {x for t in spec["tiers"] for x in (t["minT"], t["maxT"])}
+                | {x for t in spec["tiers"] for e in t["entries"] for x in e[:-1]})
+    gaps = [b - a for a, b in zip(xs, xs[1:])]
+    return min(gaps) if gaps else float("inf")
